@@ -200,3 +200,7 @@ enum ParsedTransportData<'a> {
     Fragment(FragmentInfo, ParsedFragment<'a>),
     LinkLayerMessage(LinkLayerMessage),
 }
+
+#[cfg(kani)]
+#[path = "/verif/harness/transport_reader.rs"]
+mod verif_harness;
